@@ -57,6 +57,16 @@ func c12AllocWorker(args []string) int {
 		}
 	}
 	fmt.Printf("MAXPRESENT %d\n", maxPresent)
+	// the largest per-version maximum label the restarted server reports (GET maxlabel): what it loaded from the store
+	var maxVersion uint64
+	for _, u := range []string{R, A} {
+		if r := vsrv.Get("node/" + u + "/lm/maxlabel"); r.OK() {
+			if m := wlJSONField(r, "maxlabel"); m > maxVersion {
+				maxVersion = m
+			}
+		}
+	}
+	fmt.Printf("MAXVERSION %d\n", maxVersion)
 	for i := 0; i < 3; i++ {
 		fmt.Printf("ID mutid %d\n", d.NewMutationID())
 	}
@@ -142,11 +152,14 @@ func c12Judge(c *vlib.Ctx, old *wlState, lines []string, cls, ctxt string, rep m
 			}
 		}
 	}
-	var maxPresent uint64
+	var maxPresent, maxVersion uint64
 	last := map[string]uint64{}
 	for _, l := range lines {
 		if strings.HasPrefix(l, "MAXPRESENT ") {
 			fmt.Sscanf(l, "MAXPRESENT %d", &maxPresent)
+		}
+		if strings.HasPrefix(l, "MAXVERSION ") {
+			fmt.Sscanf(l, "MAXVERSION %d", &maxVersion)
 		}
 		var s string
 		var v uint64
@@ -168,7 +181,11 @@ func c12Judge(c *vlib.Ctx, old *wlState, lines []string, cls, ctxt string, rep m
 				c.Violate("ids:"+cls+":"+s+"-not-increasing", fmt.Sprintf("%s: %s %d issued after %d in the same process", ctxt, s, v, lv), rep)
 			}
 			last[s] = v
-			if s == "label" && v <= maxPresent {
+			if s == "label" && v <= maxVersion {
+				// the per-version maximum was persisted and loaded, yet the allocator starts below it (distinct from labels that
+				// are in stored voxels but in no persisted counter, which is the recorded known finding)
+				c.Violate("ids:"+cls+":label-not-above-version-maxlabel", fmt.Sprintf("%s: newly allocated label %d is not greater than the maximum label %d that the restarted server itself reports for a version (GET maxlabel)", ctxt, v, maxVersion), rep)
+			} else if s == "label" && v <= maxPresent {
 				c.Violate("ids:"+cls+":label-not-above-stored", fmt.Sprintf("%s: newly allocated label %d is not greater than label %d present in the stored voxels", ctxt, v, maxPresent), rep)
 			}
 		default:
